@@ -66,6 +66,10 @@ CLAIMED = {
    "Thin structural part, decided on every run: parse errors of the iteration count and of each measurement end the line with a syntax error on every path before any value is recorded; the measurement fast path is exact by an interval argument (digits only, int64 accumulator, guard G with 10G+9 <= MaxInt64 evaluated in the checker, returns float64(accumulator), full parser on the whole input with bit size 64 otherwise); the iteration-count fast path's digit bound fits the word size (per build configuration, incl. GOARCH=386 in thorough); in the decimal-to-bits conversions every increase of the binary exponent is range-checked before the bits are assembled.",
    "Does NOT decide the property's core: that the 1400-line byte-slice port of strconv rounds correctly on every numeric text. The thorough tier attaches an informational per-function drift report against $GOROOT/src/strconv; it is not a verdict. Trusted: the language's correctly rounded int64->float64 conversion, go/types, go/ssa.",
    "guard/interval rules over SSA with constants evaluated in big-integer arithmetic + error-path rules"),
+ "C05": ("DESIGN.md §4 C05 (thin)",
+   "Thin structural part, decided on every run: the extractor constructor's dispatch (which key spelling leads to which extractor, found through a constant-set dataflow on the key) uses Base for .name, Full for .fullname, the sub-name lookup with prefix 'k=' and the GOMAXPROCS form exactly for /gomaxprocs, and the configuration lookup (empty when absent) otherwise; Base's two-case table (with '/': text before it, untouched; without: the shared splitter's prefix); Parts partitions the name; the -N splitter only splits at a '-' followed by at least one byte; the sub-name lookup scans in order and the first match decides, the -N form being limited to /gomaxprocs on the last part.",
+   "Does NOT decide the behaviour on the irregular names the property is about beyond these structural conditions (value-level reasoning about byte strings: dash before slash inside segments, digit-only tails, empty base, multi-byte runes). Trusted: go/types, go/ssa.",
+   "constant-set dataflow for the dispatch + decision-table extraction + guard rules"),
 }
 
 NOT_YET = "check not built yet in this round (planned in DESIGN.md); not claimed until its rules run clean on the unchanged tree"
